@@ -91,6 +91,67 @@ theorem C18_secrets_stable (P : Prims) (style : Style) (h : style = .native ∨ 
     holderSecret H c₁.keys n = holderSecret H c₂.keys n := by
   rw [C18_history_independent P style h seed net ops₁ ops₂ c₁ c₂ h₁ h₂ hid]
 
+/-- the per-commitment secret number `k` of a channel is `commitSecret H seed' (INITIAL - k)` with
+`seed'` the commitment seed of `keysOf seed net id` — no history, no counter, no `next` in it -/
+theorem C18_holder_secret_eq (H : Bytes → Bytes) (k : KeyMaterial) (n : Nat) (hn : n ≤ INITIAL_COMMITMENT_NUMBER) :
+    holderSecret H k n = some (commitSecret H k.commitmentSeed (INITIAL_COMMITMENT_NUMBER - n)) := by
+  simp [holderSecret, hn]
+
+/-- **C18_released_secret.** Whatever the history, and whatever `next_holder_commit_num` is at
+release time: when `revoke_previous_holder_commitment(N)` is repeated for an already revoked
+commitment, the secret it releases is the per-commitment secret `N - 1` of `keysOf seed net id`
+(nothing for `N = 0`), and the next point it returns is the one of number `N + 1`. -/
+theorem C18_released_secret (P : Prims) (style : Style) (h : style = .native ∨ style = .ldk)
+    (seed : Bytes) (net : Net) (ops : List Op) (c : Chan) (hc : c ∈ (run P style seed net ops).chans)
+    (H : Bytes → Bytes) (N : Nat) (r : Option Bytes × Option Bytes) (hr : revokeReply H c N = some r) :
+    r.1 = (if N = 0 then none else holderSecret H (keysOf P style seed net c.id) (N - 1)) ∧
+    r.2 = holderSecret H (keysOf P style seed net c.id) (N + 1) := by
+  have hk := C18_stateless_history P style h seed net ops c hc
+  unfold revokeReply at hr
+  split at hr
+  · injection hr with hr; subst hr; rw [hk]; exact ⟨rfl, rfl⟩
+  · cases hr
+
+/-- the same for the first release, at validate/revoke time (`N = next`) -/
+theorem C18_advance_secret (P : Prims) (style : Style) (h : style = .native ∨ style = .ldk)
+    (seed : Bytes) (net : Net) (ops : List Op) (c : Chan) (hc : c ∈ (run P style seed net ops).chans)
+    (H : Bytes → Bytes) (r : Option Bytes × Option Bytes) (hr : advanceReply H c = some r) :
+    r.1 = (if c.nextHolder = 0 then none else holderSecret H (keysOf P style seed net c.id) (c.nextHolder - 1)) ∧
+    r.2 = holderSecret H (keysOf P style seed net c.id) (c.nextHolder + 1) := by
+  have hk := C18_stateless_history P style h seed net ops c hc
+  unfold advanceReply at hr
+  split at hr
+  · injection hr with hr; subst hr; rw [hk]; exact ⟨rfl, rfl⟩
+  · cases hr
+
+/-- first release and any later repetition of it agree: both are the secret of `N - 1` -/
+theorem C18_rerevoke_same_secret (P : Prims) (style : Style) (h : style = .native ∨ style = .ldk)
+    (seed : Bytes) (net : Net) (ops₁ ops₂ : List Op) (c₁ c₂ : Chan)
+    (h₁ : c₁ ∈ (run P style seed net ops₁).chans) (h₂ : c₂ ∈ (run P style seed net ops₂).chans)
+    (hid : c₁.id = c₂.id) (H : Bytes → Bytes) (r₁ r₂ : Option Bytes × Option Bytes)
+    (hr₁ : advanceReply H c₁ = some r₁) (hr₂ : revokeReply H c₂ c₁.nextHolder = some r₂) : r₁ = r₂ := by
+  obtain ⟨a1, a2⟩ := C18_advance_secret P style h seed net ops₁ c₁ h₁ H r₁ hr₁
+  obtain ⟨b1, b2⟩ := C18_released_secret P style h seed net ops₂ c₂ h₂ H c₁.nextHolder r₂ hr₂
+  rw [hid] at a1 a2
+  exact Prod.ext (a1.trans b1.symm) (a2.trans b2.symm)
+
+/-- and for the pre-v6 `GetPerCommitmentPoint(n)` reply: point `n`, secret `n - 2` -/
+theorem C18_old_getpoint_secret (P : Prims) (style : Style) (h : style = .native ∨ style = .ldk)
+    (seed : Bytes) (net : Net) (ops : List Op) (c : Chan) (hc : c ∈ (run P style seed net ops).chans)
+    (H : Bytes → Bytes) (n : Nat) (r : Option Bytes × Option Bytes) (hr : oldGetPointReply H c n = some r) :
+    r.1 = holderSecret H (keysOf P style seed net c.id) n ∧
+    r.2 = (if n < 2 then none else holderSecret H (keysOf P style seed net c.id) (n - 2)) := by
+  have hk := C18_stateless_history P style h seed net ops c hc
+  unfold oldGetPointReply at hr
+  split at hr
+  · cases hr
+  · split at hr
+    · rename_i h2; injection hr with hr; subst hr; rw [hk]; simp [h2]
+    · rename_i h2
+      split at hr
+      · injection hr with hr; subst hr; rw [hk]; simp [h2]
+      · cases hr
+
 /-- a restart keeps every channel (id, readiness, value, commitment counter) -/
 theorem C18_restart_keeps_channels (P : Prims) (style : Style) (seed : Bytes) (net : Net) (s : NodeSt) :
     (step P style seed net s .restart).chans.map (fun c => (c.id, c.ready, c.value, c.nextHolder))
@@ -239,6 +300,10 @@ example : ∀ c ∈ (run witnessPrims .native [5] .testnet sampleOps).chans,
   C18_stateless_history witnessPrims .native (Or.inl rfl) [5] .testnet sampleOps
 
 example : keysOf witnessPrims .native [5] .testnet [7] ≠ keysOf witnessPrims .native [5] .testnet [9] := by decide
+
+/-- re-revoking commitment 0 (N = 1) on the sample history's channel [7] (next = 3) is answered -/
+example : ((run witnessPrims .native [5] .testnet sampleOps).chans.head?.bind
+    (fun c => revokeReply (fun s => 9 :: s) c 1)).isSome = true := by decide
 
 /-- the injectivity hypothesis of `C18_distinct_partial` is satisfiable, for Native … -/
 example : ∀ a b, applyMask (maskOf .native) (witnessPrims.hkdf32 (channelSeedBase witnessPrims [5]) infoPerPeerSeed a)
